@@ -120,10 +120,6 @@ func buildMetaValsAndMethod(r *http.Request, root string, envVars map[string]str
 	metaHeader.Add("SCRIPT_FILENAME", scriptFilename)
 	metaHeader.Add("SCRIPT_NAME", scriptName)
 
-	if metaHeader.Get("PATH_INFO") == "" {
-		metaHeader.Add("PATH_INFO", filepath.Join(root, pathInfo))
-	}
-
 	// add config
 	for key, value := range envVars {
 		metaHeader.Set(key, value)
